@@ -61,6 +61,21 @@ def hashed_inputs(rng, n):
             out.append((tr, '#[%s(rename_all = "%s")] enum E { %s }' % (at, casing, c)))
             out.append((tr, '#[%s(rename_all = "%s")] struct %s;' % (at, casing, (pairs[0][0] + pairs[0][1]))))
             out.append((tr, '#[%s(rename_all = "%s")] struct %s;' % (at, casing, (pairs[0][0] + pairs[0][1].lower()))))
+        # the same spelling meaning a type parameter in one item and a concrete type in the next
+        nm = rng.choice(["T", "U", "Item", "Elem"])
+        for tr, at in (("AsRef", "as_ref"), ("AsMut", "as_mut")):
+            out.append((tr, "struct Bag<%s>(#[%s(Vec<%s>, [%s])] Vec<%s>);" % (nm, at, nm, nm, nm)))
+            out.append((tr, "struct Inv<'a> { #[%s(Vec<%s>, [%s])] v: Vec<%s>, p: &'a u8 }" % (at, nm, nm, nm)))
+            out.append((tr, "struct Other<Q> { #[%s(Vec<%s>, [%s])] v: Vec<%s>, q: Q }" % (at, nm, nm, nm)))
+        for tr in ("Debug", "Display"):
+            lit = '#[%s("{x:?}")] ' % tr.lower()
+            out.append((tr, "%sstruct A<%s> { x: Vec<%s> }" % (lit, nm, nm)))
+            out.append((tr, "%sstruct B<Q> { x: Vec<%s>, y: Q }" % (lit, nm)))
+            out.append((tr, "%sstruct C<'a> { x: Vec<%s>, y: &'a u8 }" % (lit, nm)))
+        out.append(("Error", "enum E<%s> { A { source: %s }, B }" % (nm, nm)))
+        out.append(("Error", "enum E<Q> { A { source: %s }, B(Q) }" % nm))
+        out.append(("From", "#[from(forward)] struct F<%s>(%s, u8);" % (nm, nm)))
+        out.append(("From", "#[from(forward)] struct F<Q>(%s, Q);" % nm))
         size = rng.choice([2, 3, 5, 7, 13, 29, 36, 60, 120])
         out.append(("FromStr", "enum E { %s }" % ", ".join("V%dx%s" % (i, rng.choice(words)) for i in range(size))))
         out.append(("TryInto", "enum E { %s }" % ", ".join("V%d(%s)" % (i, rng.choice(TYS[:14])) for i in range(size))))
